@@ -125,6 +125,9 @@ def summary(out):
              '## Survivors not reported, triaged by hand', '', '| mutant | function | line | verdict |', '|---|---|---|---|']
     for r in und:
         lines.append('| `%s` | %s | `%s` | %s |' % (r['id'], r['fn'], r['text'][:70].replace('|', '\\|'), tri.get(r['id'], 'NOT TRIAGED')))
+    notes = os.path.join(os.path.dirname(out), 'NOTES.md')
+    if os.path.exists(notes):
+        lines += ['', open(notes).read().rstrip()]
     open(os.path.join(os.path.dirname(out), 'SUMMARY.md'), 'w').write('\n'.join(lines) + '\n')
     print('\n'.join(lines[:22]))
     return 0
